@@ -46,4 +46,11 @@ VARIANTS = [
     V("C03-n04-caches-reset-later", "neutral",
       "        self.subtraction_value_cache = {}\n        self.max_level_dict = {}\n        self.refinement.apply_remove(sort=True)\n",
       "        self.refinement.apply_remove(sort=True)\n        self.max_level_dict = {}\n        self.subtraction_value_cache = {}\n"),
+    # D9: no call bypasses the strategy's own override
+    V("C03-b70-super-call-bypasses-own-interpolate-points", "break", "            return super().interpolate_grid_component(grid_coordinates, component_grid)\n",
+      "            return super().interpolate_points(list(get_cross_product(grid_coordinates)), component_grid)\n", "C03.D9"),
+    V("C03-b71-explicit-base-call-bypasses-own-interpolate-points", "break", "            return super().interpolate_grid_component(grid_coordinates, component_grid)\n",
+      "            return SpatiallyAdaptivBase.interpolate_points(self, list(get_cross_product(grid_coordinates)), component_grid)\n", "C03.D9"),
+    V("C03-n70-explicit-base-call-of-the-same-method", "neutral", "            return super().interpolate_grid_component(grid_coordinates, component_grid)\n",
+      "            return SpatiallyAdaptivBase.interpolate_grid_component(self, grid_coordinates, component_grid)\n"),
 ]
